@@ -1,10 +1,10 @@
 (* C03/Harness.v — comparison of the model's deterministic scheduler with the event log recorded from
    the real BaseExporter by harness/C03/shutdown_test.go.
    Case term:  (cfg, phases, final)
-     cfg    : [persistent; batch; timer; retry mode; consumers; min_size]      (list nat)
+     cfg    : [persistent; batch; timer; retry mode; consumers; min_size; wait_for_result]   (list nat)
      phases : list (action, events observed until quiescence after the action)
               action = (0, id, items) offer | (1, first id of the call, outcome 0 ok/1 transient/2 permanent)
-                       release | (2, 0, 0) call Shutdown | (3, 0, 0) the flush timer fires
+                       release | (2, 0, 0) call Shutdown | (2, m, 1) call Shutdown, race observed (see Model.v) | (3, 0, 0) the flush timer fires
               event  = (kind, sorted ids), sorted within the phase (kinds: see Model.v [event])
      final  : (sorted ids whose body is still in the storage, live helper goroutines at the end) *)
 From Verif Require Import Common.Base C03.Model.
@@ -16,8 +16,8 @@ Definition nz (n : nat) : bool := negb (Nat.eqb n 0).
 
 Definition hcfg_of (l : list nat) : option hcfg :=
   match l with
-  | [p; b; t; m; n; mn] =>
-      Some (mkH (mkCfg (nz p) (nz b) (nz t) (nz m) n (if nz b then 1 else 0)) m mn)
+  | [p; b; t; m; n; mn; w] =>
+      Some (mkH (mkCfg (nz p) (nz b) (nz t) (nz m) n (if nz b then 1 else 0)) m mn (nz w))
   | _ => None
   end.
 
@@ -27,6 +27,7 @@ Definition action_of (a : nat * nat * nat) : option action :=
   | (1, i, 0) => Some (ARelease i OOk)
   | (1, i, 1) => Some (ARelease i OTransient)
   | (1, i, 2) => Some (ARelease i OPermanent)
+  | (2, m, 1) => Some (AShutdownRace m)
   | (2, _, _) => Some AShutdown
   | (3, _, _) => Some ATimerFire
   | _ => None
@@ -60,3 +61,26 @@ Definition check_case (c : ctype) : bool :=
       && list_eqb Nat.eqb st (fst fin) && Nat.eqb lv (snd fin)
   | None => false
   end.
+
+(* ---- which labels of the LTS do the replayed cases exercise?  (evidence: model_label_histogram) ---- *)
+Definition label_index (l : label) : nat :=
+  match l with
+  | LOffer _ => 0 | LOfferFail _ => 1 | LTake => 2 | LConsExit => 3 | LAbsorb _ false => 4 | LAbsorb _ true => 5
+  | LSpawnC _ => 6 | LBegin _ => 7 | LEnd _ OOk => 8 | LEnd _ OTransient => 9 | LEnd _ OPermanent => 10
+  | LRetryTimer _ => 11 | LRetryStop _ => 12 | LRetryGiveUp _ => 13 | LDone _ => 14
+  | LTimerFire => 15 | LTimerSpawn => 16 | LTimerExit => 17
+  | LShutCall => 18 | LCloseStop => 19 | LQueueStop => 20 | LJoinConsumers => 21 | LFinalFlush => 22
+  | LFinalSpawn => 23 | LJoinFlushes => 24 | LInnerShutdown => 25 | LReturn => 26
+  end.
+
+Definition case_labels (c : ctype) : list label :=
+  let '(cf, phases, _) := c in
+  match hcfg_of cf, map_opt action_of (map fst phases) with
+  | Some hc, Some acts =>
+      match exec hc [] (init (h_cfg hc)) acts with Some (ls, _, _) => ls | None => [] end
+  | _, _ => []
+  end.
+
+Definition label_hist (cs : list ctype) : list nat :=
+  let ls := flat_map case_labels cs in
+  map (fun k => length (filter (fun l => Nat.eqb (label_index l) k) ls)) (seq 0 27).
